@@ -586,7 +586,24 @@ func rsemScenario(c *Ctx, sh *shard, scen int) {
 		}
 		must(bs.WriteFileFooter(w, &fm))
 		must(w.Close())
-		must(meta.Update(ctx, []bs.WriteOperation{{FileMetadata: &fm, FilePointerBytes: ptr}}, nil))
+		fmReg := &fm
+		if c.chance(0.6) {
+			// a MetaStore that registers what the file itself says (as FileSystemDataStore does): the metadata
+			// and the file-level filters go through the footer codec, partial filter sets included
+			h, err := mem.OpenFile(ctx, ptr)
+			must(err)
+			parsed, _, err := bs.ReadFileMetadata(h)
+			h.Close()
+			if err != nil {
+				c.violation("e2e-footer-unreadable", "ReadFileMetadata rejects a file written through WriteFileFooter: "+err.Error(), nil)
+			} else {
+				fmReg = parsed
+			}
+			c.dist("e2e_external_registered", "parsed-footer")
+		} else {
+			c.dist("e2e_external_registered", "writer-metadata")
+		}
+		must(meta.Update(ctx, []bs.WriteOperation{{FileMetadata: fmReg, FilePointerBytes: ptr}}, nil))
 		if c.chance(0.5) { // the engine merges externally written files too
 			if _, err := eng.Merge(ctx); err != nil {
 				c.violation("e2e-merge-error", "Merge failed over an externally written file: "+err.Error(), nil)
